@@ -3,9 +3,10 @@
    Request:   C02 (infer <fn> <table>)
    Response:  the Go signature text exactly as fc prints it up to (excluding) the opening brace,
               e.g.  func app[T0 any, T1 any](f func (T0) T1, x T0) T1
-              or ILLTYPED (no typing exists / unbound name / wrong arity), or FUEL.
+              or ILLTYPED (no typing exists / unbound name / wrong arity), or FUEL; prefixed with
+              "AMBIG " when the body contains a type that nothing determines (infer_ambiguous).
               `C02 (infertype <fn> <table>)` answers the scheme as an s-expression instead:
-              (k (<ty> ...) <ty>)   with variables (tv i).
+              (k (<ty> ...) <ty> determined|ambiguous)   with variables (tv i).
 
    <fn>    ::= (fn "name" (<param> ...) <exp>)
    <param> ::= ("x" _) | ("x" <ty>)                      annotation: a ground type
@@ -150,14 +151,16 @@ let handle want_type fn table =
         | _ -> raise (Parse_error "param")) params in
     let fd = { f_params = List.map (fun (x, a) -> (var x, a)) ps; f_body = ex body } in
     let ta = Array.of_list tnames in
+    let amb = infer_ambiguous d big_fuel fd in
     (match infer_fun d big_fuel fd with
      | OutOfFuel -> "FUEL"
      | IllTyped -> "ILLTYPED"
      | Inferred (k, ptys, rty) ->
        if want_type then
-         "(" ^ string_of_int (int_of_nat k) ^ " (" ^ String.concat " " (List.map (sexp_of_ty ta) ptys) ^ ") " ^ sexp_of_ty ta rty ^ ")"
+         "(" ^ string_of_int (int_of_nat k) ^ " (" ^ String.concat " " (List.map (sexp_of_ty ta) ptys) ^ ") " ^ sexp_of_ty ta rty ^ (if amb then " ambiguous" else " determined") ^ ")"
        else
          let names i = let i = int_of_nat i in explode (if i < Array.length ta then ta.(i) else "?") in
+         (if amb then "AMBIG " else "") ^
          implode (sig_to_go names (explode (str_of name)) (List.map (fun (x, _) -> explode x) ps) k ptys rty))
   | _ -> raise (Parse_error "fn")
 
